@@ -3,6 +3,7 @@ module verifharness
 go 1.24
 
 require (
+	github.com/aws/aws-sdk-go-v2/service/kinesis v1.32.10
 	google.golang.org/protobuf v1.36.3
 	pgregory.net/rapid v1.3.0
 	reduction.dev/reduction v0.0.0
@@ -25,7 +26,6 @@ require (
 	github.com/aws/aws-sdk-go-v2/service/internal/checksum v1.4.8 // indirect
 	github.com/aws/aws-sdk-go-v2/service/internal/presigned-url v1.12.8 // indirect
 	github.com/aws/aws-sdk-go-v2/service/internal/s3shared v1.18.8 // indirect
-	github.com/aws/aws-sdk-go-v2/service/kinesis v1.32.10 // indirect
 	github.com/aws/aws-sdk-go-v2/service/s3 v1.72.2 // indirect
 	github.com/aws/aws-sdk-go-v2/service/sso v1.24.9 // indirect
 	github.com/aws/aws-sdk-go-v2/service/ssooidc v1.28.8 // indirect
